@@ -66,7 +66,21 @@ def generate(repo: Repo, con: Contract, k=None, only_variant=None) -> Generated:
             base = wf + pre
             ex.entry_hyps = list(base)
             ex.pc = list(base)
-            outcomes = ex.explore(lambda: ex.inline(fi, [], dict(env)), base_pc=base)
+            mut = con.frame.split(":", 1)[1].split(",") if con.frame.startswith("mutates:") else []
+
+            def run_once():
+                env2 = dict(env)
+                for p_ in mut:
+                    # the function may write to this argument (in-place operation): every explored path starts from its own
+                    # owned copy of the entry state; the contract's `post` relates the entry state (a.<param>) to what the
+                    # function returns (the same object after the writes) -- writes to anything else still fail `frame`
+                    g0 = env[p_]
+                    from .values import VNx
+                    if not isinstance(g0, VNx):
+                        raise OutOfSubset(f"mutable parameter {p_} of kind {type(g0).__name__}")
+                    env2[p_] = VNx(g0.directed, g0._N, g0._E, owned=True, nattrs=dict(g0.nattrs), gattrs=dict(g0.gattrs))
+                return ex.inline(fi, [], env2)
+            outcomes = ex.explore(run_once, base_pc=base)
             vtag = "" if len(con.variants()) == 1 else f"[{_variant_tag(variant)}]"
             nret = 0
             for kind, pc, payload in outcomes:
@@ -99,10 +113,11 @@ def generate(repo: Repo, con: Contract, k=None, only_variant=None) -> Generated:
                 kind = em.oid.split("/")[-1].split(".")[0].split("@")[0]
                 G.instances.append(Instance(em.oid, L, em.hyps, em.goal, note=em.note, variant=vi, probes=probes,
                                             kind=kind))
-            if con.frame == "pure":
+            if con.frame == "pure" or mut:
                 G.instances.append(Instance(f"{con.qual}/frame", L, list(base), L.T(), variant=vi, probes=probes,
                                             kind="frame",
-                                            note="no write to caller-reachable state on any path (structural)"))
+                                            note="no write to caller-reachable state on any path (structural)" + (
+                                                f", other than to the declared in-place parameter(s) {mut}" if mut else "")))
             if not outcomes:
                 G.out_of_subset.append(f"no feasible path in variant {vi}")
             L.closure_lemmas()
